@@ -19,7 +19,7 @@ Proof.
   - apply N.ltb_ge in Hbig. apply N.leb_le in Hbig. rewrite Hbig. cbn [andb].
     match goal with |- context [init_fail ?x] => remember x as s2 eqn:Hs2 end.
     assert (Hc : same_ctl (set_peer_sent (peer_sent s ++ [f]) s) s2).
-    { subst s2. destruct (typed_handler cfg (f_typ f)) as [k|]; [|apply same_ctl_refl].
+    { subst s2. destruct (first_handler cfg (f_typ f)) as [k|]; [|apply same_ctl_refl].
       destruct k; try (same_ctl_tac; fail).
       eapply same_ctl_trans; [|apply ack_enqueue_same_ctl]. same_ctl_tac. }
     clear Hs2. destruct Hc as (_ & E2 & _ & _ & _ & _ & _ & _ & _ & E10). st_simpl.
